@@ -25,7 +25,7 @@ RULE = ("wallets from all constructors x both networks x accounts/intervals as C
         "xprv x6, all BIP85 outputs) plus every secret-classified leaf of the unfiltered output, by equality, substring, "
         "Base58Check classification and BIP39-run detection; CLI --paranoia runs (stdout and -f file) go through the same "
         "oracle; distinct = distinct (monitor, case) digests"
-        " EXTENSIONS: + export faults after validation (trailing slash, dangling symlink, missing directory) with stdout / stderr / files scanned, one in-process CLI run of 2^15+600 rows per block in fast mode, every output channel for every constructor")
+        " EXTENSIONS: + export faults after validation (trailing slash, dangling symlink, missing directory) with stdout / stderr / files scanned, one in-process CLI run of 2^15+600 rows per block in fast mode, every output channel for every constructor, the filter on generate() results extended to K-1 .. 2K+1 rows per section for every harvested threshold K")
 LEVEL_TEXT = ("The real filter's output (in-process and through the CLI) is scanned leaf by leaf by an independent secret "
               "classifier fed with ground truth recomputed from the seed, so a leak under a key unknown today, inside a longer "
               "string or at another nesting depth is still seen; the public part must be identical to the unfiltered output.")
@@ -356,9 +356,62 @@ def run(ctx):
                         "source": ["from-mnemonic", "from-entropy-hex", "from-master-xprv"][(j // 3) % 3], "purpose": 44})
     if ctx.mine_once(5):
         judge_cli_huge(ctx, {"seed": gen.rbytes(rnd, 64), "testnet": bool(ctx.seed & 1), "n": (1 << 15) + 600 if not ctx.thorough else (1 << 16) + 600})
+    # the filter itself on listings of K-1, K, K+1, K+3, 2K, 2K+1 rows per section for every threshold K written down in the code
+    # under test (vpkg.harvest / vpkg.longrun)
+    from .. import longrun
+    for j, (k, n) in enumerate(longrun.lengths(ctx, wide=True)):
+        from .. import harvest
+        if ctx.mine_once(j) and n <= (1 << 22 if ctx.thorough else (300000 if k in harvest.baseline() else 2500000)):
+            judge_long_filter(ctx, {"seed": gen.rbytes(rnd, 32), "testnet": bool((j + ctx.seed) & 1), "n": n, "k": k})
+    ctx.extra["harvested_thresholds"] = longrun.thresholds()
+
+
+def judge_long_filter(ctx, case):
+    """paranoia_mode applied to a generate() result whose three listings were extended to n rows each (the rows beyond the
+    first four repeat the four real ones under their own path text - the filter is a function of the structure): n rows of
+    three columns come back in every section, equal to the public columns, and none of the twelve real WIFs is anywhere."""
+    from btc_hd_wallet.__main__ import paranoia_mode
+    from btc_hd_wallet.paper_wallet import PaperWallet
+    n, tn = case["n"], case["testnet"]
+    w = PaperWallet.from_bip39_seed_bytes(bip39_seed=case["seed"], testnet=tn)
+    data = w.generate(account=0, interval=(0, 4))
+    wifs = set()
+    for sec in ("BIP44", "BIP49", "BIP84"):
+        pool = [list(r) for r in data[sec]["groups"]]
+        rowtype = type(data[sec]["groups"][0])
+        prefix = pool[0][0].rsplit("/", 1)[0]
+        wifs.update(r[3] for r in pool)
+        data[sec]["groups"] = type(data[sec]["groups"])(rowtype(["%s/%d" % (prefix, j)] + pool[j & 3][1:]) for j in range(n))
+    try:
+        filt = paranoia_mode(data=data)
+    except Exception as ex:  # noqa  (an implementation is free to refuse a listing it did not make itself: not judged)
+        ctx.extra["long_filter_refused_synthetic_listing"] = ctx.extra.get("long_filter_refused_synthetic_listing", 0) + 1
+        ctx.extra["long_filter_refusal"] = repr(ex)[:120]
+        return None
+    bad = []
+    for sec in ("BIP44", "BIP49", "BIP84"):
+        rows = filt.get(sec, {}).get("groups")
+        if rows is None or len(rows) != n:
+            bad.append(("row_count_" + sec, n, None if rows is None else len(rows)))
+            continue
+        src = data[sec]["groups"]
+        for j, row in enumerate(rows):
+            if len(row) != 3 or list(row) != list(src[j][:3]):
+                bad.append(("row_" + sec, (j, list(src[j][:3])), (j, [str(x)[:16] for x in row])))
+                break
+    if not bad:
+        for leaf in leaves(filt, []):
+            if leaf in wifs:
+                bad.append(("private_encoding", "absent", leaf[:10]))
+                break
+    ctx.extra["long_filter_rows"] = ctx.extra.get("long_filter_rows", 0) + 3 * n
+    return ctx.judge("long_filter", not bad, case, "3 x %d rows of three public columns" % n, bad[:3], cls="long-filter|n%d|%s" % (n, "test" if tn else "main"),
+                     mech="C15.long_filter." + (str(bad[0][0]).split("_BIP")[0] if bad else ""))
 
 
 def replay(ctx, monitor, case):
+    if monitor == "long_filter":
+        return judge_long_filter(ctx, case)
     if monitor == "cli_paranoia" and case.get("n", 0) > 20000:
         return judge_cli_huge(ctx, case)
     if monitor == "cli_paranoia":
